@@ -215,6 +215,57 @@ pub fn run_case(case: &mut Case) {
         if argv.iter().any(|a| a.starts_with(b"--bpaf-complete-style")) {
             continue;
         }
+        // ... but it is completion output all the same: stdout, status 0, nothing on stderr and
+        // the body is not reached, whatever else is on the line
+        if vi == 1 && case.index % 4 == 2 {
+            let style = *rng.pick(&["bash", "zsh", "fish", "elvish"]);
+            let mut sargv = argv.clone();
+            sargv.retain(|a| !a.starts_with(b"--bpaf-complete-rev"));
+            let at = rng.below(sargv.len() + 1);
+            sargv.insert(at, format!("--bpaf-complete-style-{}", style).into_bytes());
+            let dd = sargv.iter().position(|a| a == b"--");
+            if dd.map_or(true, |d| at <= d) {
+                let mut cmd = std::process::Command::new(&exe);
+                cmd.arg0("my-tool");
+                cmd.env_clear();
+                cmd.env(
+                    CHILD_ENV,
+                    format!("{}:{}:{}:run", case.prop, case.seed, case.index),
+                );
+                for a in &sargv {
+                    cmd.arg(OsString::from_vec(a.clone()));
+                }
+                if let Ok(out) = cmd.output() {
+                    case.rep.count("class:completion-script-request");
+                    let status = out.status.code().unwrap_or(-1);
+                    let body = String::from_utf8_lossy(&out.stdout).contains(crate::child::SENTINEL);
+                    let problem = if status != 0 {
+                        Some("status")
+                    } else if !out.stderr.is_empty() {
+                        Some("stderr")
+                    } else if out.stdout.is_empty() {
+                        Some("no-output")
+                    } else if body {
+                        Some("body-reached")
+                    } else {
+                        None
+                    };
+                    if let Some(what) = problem {
+                        case.rep.violation(
+                            &format!("completion-script-request:{}", what),
+                            "process-boundary",
+                            case.index,
+                            case_json(&b.spec, &sargv)
+                                .set("argv0", "my-tool")
+                                .set("expected", "the completion script on stdout, status 0, empty stderr, body not reached")
+                                .set("child_status", i64::from(status))
+                                .set("child_stdout", show_bytes(&out.stdout[..out.stdout.len().min(300)]))
+                                .set("child_stderr", show_bytes(&out.stderr[..out.stderr.len().min(300)])),
+                        );
+                    }
+                }
+            }
+        }
         // program name: plain, a path, non-ASCII, or a file name that is not UTF-8
         let (arg0, name): (Vec<u8>, Option<String>) = match rng.below(9) {
             5 => (b"prog.v2".to_vec(), Some("prog.v2".into())),
